@@ -604,6 +604,20 @@ RULES = {
     "R10z": Rule("R10z", "for (a, &b) in A.iter_mut().zip(B.iter()) { BODY } -> index loop over min(len A, len B)",
                  "for ( $a , & $b ) in $$x . iter_mut ( ) . zip ( $$y . iter ( ) ) { $$body }",
                  "{ let mut i__ = 0 ; let n__ = Ord :: min ( $$x . len ( ) , $$y . len ( ) ) ; while i__ < n__ { let $a = & mut $$x . as_mut_slice ( ) [ i__ ] ; let $b = $$y [ i__ ] ; i__ += 1 ; $$body } }"),
+    "R10zs": Rule("R10zs", "for (a, &b) in A.iter_mut().zip(B.iter()) { BODY } (A: &mut [T]) -> index loop over min(len A, len B)",
+                 "for ( $a , & $b ) in $x . iter_mut ( ) . zip ( $y . iter ( ) ) { $$body }",
+                 "{ let mut i__ = 0 ; let n__ = Ord :: min ( $x . len ( ) , $y . len ( ) ) ; while i__ < n__ { let $a = & mut $x [ i__ ] ; let $b = $y [ i__ ] ; i__ += 1 ; $$body } }"),
+    "R10s2": Rule("R10s2", "for e in V[D..].iter_mut() { BODY } (V: &mut Vec<T>, D an expression) -> index loop from D",
+                 "for $e in $v [ $$d .. ] . iter_mut ( ) { $$body }",
+                 "{ let mut i__ = $$d ; while i__ < $v . len ( ) { let $e = & mut $v . as_mut_slice ( ) [ i__ ] ; i__ += 1 ; $$body } }"),
+    "R10s3": Rule("R10s3", "for e in S[D..].iter_mut() { BODY } (S: &mut [T], D an expression) -> index loop from D",
+                 "for $e in $v [ $$d .. ] . iter_mut ( ) { $$body }",
+                 "{ let mut i__ = $$d ; while i__ < $v . len ( ) { let $e = & mut $v [ i__ ] ; i__ += 1 ; $$body } }"),
+    "R29": Rule("R29", "V.extend(E.iter().map(|&b| { BODY })); -> index loop pushing BODY evaluated per element, in order (std: Extend for Vec pushes each item the Map adapter yields; the FnMut closure runs once per element, sequentially)",
+                 "$v . extend ( $e . iter ( ) . map ( | & $b | { $$body } ) ) ;",
+                 "{ let mut i__ = 0 ; while i__ < $e . len ( ) { let $b = $e [ i__ ] ; i__ += 1 ; let x__ = { $$body } ; $v . push ( x__ ) ; } }"),
+    "R16u": Rule("R16u", "Ord::cmp(&a.len(), &b.len()) -> __usize_cmp(a.len(), b.len())  (std: total order on usize)",
+                 "Ord :: cmp ( & a . len ( ) , & b . len ( ) )", "__usize_cmp ( a . len ( ) , b . len ( ) )"),
     "R10y": Rule("R10y", "for (a, &b) in A.iter_mut().zip(B) { BODY } (B: &[T]) -> index loop over min(len A, len B)",
                  "for ( $a , & $b ) in $$x . iter_mut ( ) . zip ( $y ) { $$body }",
                  "{ let mut i__ = 0 ; let n__ = Ord :: min ( $$x . len ( ) , $y . len ( ) ) ; while i__ < n__ { let $a = & mut $$x [ i__ ] ; let $b = $y [ i__ ] ; i__ += 1 ; $$body } }"),
